@@ -695,6 +695,7 @@ package readline
 // C01: NewShell establishes the standing invariant that every command contract of the sweep requires.
 //@ func NewShell
 //@   props C01
+//@   retains opts
 //@   requires all(k, 0, len(opts), opts[k] != nil) && history.allok()
 //@   ensures [establishes-invariant] result != nil && fullok(result)
 
@@ -963,3 +964,15 @@ package readline
 //@   props C08
 //@   requires fullok(rl) && histready(rl)
 //@   at_call acceptLineWith [replays] a1 && !a2
+
+// fifth batch: the two commands that hand the line to an external editor
+//@ func (*Shell).emacsEditingMode
+//@   trusted like viCommandMode: resets selection/iterations/register flags, cancels completion and hints, re-reads (line, cursor, selection) from the completion engine (identical outside isearch) and switches the main keymap; does not touch the buffer text (completion engine and hint code are outside the functions under contract, A-COMPONENTS)
+//@   requires viok(rl)
+//@   assigns rl.selection.Type, rl.selection.active, rl.selection.visual, rl.selection.visualLine, rl.selection.bpos, rl.selection.epos, rl.selection.kpos, rl.selection.fg, rl.selection.bg, rl.selection.surrounds, rl.Iterations.times, rl.Iterations.active, rl.Iterations.pending, rl.Buffers.active, rl.Buffers.waiting, rl.Buffers.selected, rl.Keymap.local, rl.Keymap.main, anyof("ui.Hint", "*"), anyof("completion.Engine", "*")
+//@ func (*Shell).editAndExecuteCommand
+//@   props C01
+//@   requires fullok(rl) && histready(rl)
+//@ func (*Shell).editCommandLine
+//@   props C01
+//@   requires fullok(rl) && histready(rl)
